@@ -32,6 +32,8 @@ struct Options {
   bool traceAll = false;        // log events on unnamed addresses too
   uint64_t backstopNs = 50000000ull; // a timed wait at least this long counts as a backstop
   int spuriousPerMille = 0;     // per scheduling decision: chance that a futex waiter returns EINTR (signal)
+  bool spinJump = false;        // a thread spinning on loads (24 in a row) while nobody else can run: advance
+                                // virtual time to the earliest pending deadline instead of 50 ns per load
   std::vector<int> prefix;      // DFS / replay: forced choices
 };
 
